@@ -140,6 +140,7 @@ type Engine struct {
 	netByPtr     map[*value]*netConn
 	httpSt       *httpState
 	vclock       int64
+	hangLimit    int
 	idleWakeups  int
 }
 
@@ -193,6 +194,7 @@ func (e *Engine) resetPath() {
 	e.netByPtr = nil
 	e.httpSt = nil
 	e.vclock = 0
+	e.hangLimit = 0
 	e.idleWakeups = 0
 }
 
